@@ -180,3 +180,32 @@ Proof.
     + apply net_flow_at_outside; exact Hv.
 Qed.
 Print Assumptions feasible_meaning.
+
+(** ** spawning cost *)
+Lemma spawning_cost_positive : stmt_spawning_cost_positive.
+Proof.
+  intros nw ty slots Hp Hl. unfold spawning_cost.
+  set (m := fold_left Z.max _ _).
+  assert (1 <= Z.max 1 m) by lia. nia.
+Qed.
+
+Lemma spawning_cost_dominates_rates : stmt_spawning_cost_dominates_rates.
+Proof.
+  intros nw ty slots Hp Hl P c Hc. unfold spawning_cost. fold P.
+  cbn [fold_left].
+  set (m := Z.max (Z.max (Z.max (Z.max (c_staff P) (c_service P)) (c_maint P)) (c_dh P)) (c_idle P)).
+  assert (Hcm : c <= Z.max 1 m).
+  { unfold m. cbn [In] in Hc. destruct Hc as [<-|[<-|[<-|[<-|[<-|[]]]]]]; lia. }
+  assert (0 <= 3 * planning_s nw * total_lower_bound nw ty slots) by nia.
+  replace (c * 3 * planning_s nw * total_lower_bound nw ty slots)
+    with (c * (3 * planning_s nw * total_lower_bound nw ty slots)) by ring.
+  replace (Z.max 1 m * 3 * planning_s nw * total_lower_bound nw ty slots)
+    with (Z.max 1 m * (3 * planning_s nw * total_lower_bound nw ty slots)) by ring.
+  apply Z.mul_le_mono_nonneg_r; assumption.
+Qed.
+
+Lemma spawning_cost_prefix_zero : stmt_spawning_cost_prefix_zero.
+Proof.
+  intros nw ty slots P H1 H2 H3 H4 H5. unfold spawning_cost_prefix. fold P.
+  cbn [fold_left]. rewrite H1, H2, H3, H4, H5. reflexivity.
+Qed.
